@@ -586,12 +586,26 @@ impl PacketReceiver for IceConn {
                                 .filter(|c| c.has_marker)
                                 .min_by_key(|c| c.first_seq);
 
+                            // Rule 2: consecutive dominance — at least 2
+                            // consecutive packets from one source and at
+                            // least 3 total observed.
+                            let run_winner = if total >= 3 {
+                                prob.candidates
+                                    .iter()
+                                    .find(|c| c.consecutive_count >= 2)
+                            } else {
+                                None
+                            };
+
                             if let Some(mw) = marker_winner {
                                 winner = Some(mw.addr);
+                            } else if let Some(rw) = run_winner {
+                                winner = Some(rw.addr);
                             } else if total >= prob.max_packets {
-                                // Rule 3 (timeout fallback): pick the
-                                // candidate with the most packets; break
-                                // ties by lowest first_seq.
+                                // Rule 3 (timeout fallback): no clear winner
+                                // within the window — pick the candidate with
+                                // the most packets; break ties by lowest
+                                // first_seq.
                                 winner = prob
                                     .candidates
                                     .iter()
@@ -602,17 +616,7 @@ impl PacketReceiver for IceConn {
                                     })
                                     .map(|c| c.addr);
                             } else {
-                                // Rule 2: consecutive dominance — at
-                                // least 2 consecutive packets from one
-                                // source and at least 3 total observed.
-                                winner = if total >= 3 {
-                                    prob.candidates
-                                        .iter()
-                                        .find(|c| c.consecutive_count >= 2)
-                                        .map(|c| c.addr)
-                                } else {
-                                    None
-                                };
+                                winner = None;
                             }
 
                             if let Some(win_addr) = winner {
